@@ -153,6 +153,10 @@ class N:
 
 
 def value_node(kind: str, value: Any) -> N:
+    if kind.startswith("raw-"):
+        # explicit content octets (non-canonical but well-formed encodings:
+        # redundant leading octets, unsigned values without the leading zero)
+        return N(KIND_TAG[kind[4:]], content=bytes(value))
     return N(KIND_TAG[kind], content=enc_value_content(kind, value))
 
 
